@@ -127,10 +127,17 @@ def _add_duplicates(rng, case):
         return False
     it = rng.choice(pool)
     dup = {"sec": it["sec"], "atoms": list(it["atoms"]), "params": FF._params(rng, it["sec"]), "meta": {}}
+    more = []
     if rng.random() < 0.5:
         it["meta"] = {"ifdef": "FLEXIBLE"}
         dup["meta"] = {"ifndef": "FLEXIBLE"}
+    else:
+        # three or four terms on the same atoms (e.g. a multi-term proper dihedral)
+        for k in range(rng.randint(0, 2)):
+            more.append({"sec": it["sec"], "atoms": list(it["atoms"]), "params": FF._params(rng, it["sec"]), "meta": {}})
     b["inter"].insert(b["inter"].index(it) + 1, dup)
+    for k, x in enumerate(more):
+        b["inter"].insert(b["inter"].index(dup) + 1 + k, x)
     # re-render the files
     ff_blocks = [x for x in case["spec"]["blocks"] if x["syntax"] == "ff"]
     itp_blocks = [x for x in case["spec"]["blocks"] if x["syntax"] == "itp"]
@@ -144,6 +151,8 @@ def _add_duplicates(rng, case):
     case["descr"]["untagged_duplicate_in"] = b["name"]
     # the reference keeps both terms: give them distinct keys internally
     dup["meta"]["version"] = "dup-b"
+    for k, x in enumerate(more):
+        x["meta"]["version"] = "dup-%d" % k
     return True
 
 
@@ -165,7 +174,21 @@ def run_mods(cid, rng, workdir, res):
             a["name"] = "SC%d" % i
         blocks.append(b)
     names = [b["name"] for b in blocks]
-    link = ["[ link ]", 'resname "%s"' % "|".join(names), "[ bonds ]", "BB +BB 1 0.350 1250"]
+    # a non-protein residue in the chain (never modified, whatever the -mods string calls it)
+    lnk = FF.gen_block(rng, "LNK", "ff", max_atoms=3, sections=[], allow_cond=False, nrexcl=1, prefix="B")
+    lnk["atoms"][0]["name"] = "BB"
+    for i, a in enumerate(lnk["atoms"][1:], 1):
+        a["name"] = "SC%d" % i
+    use_lnk = rng.random() < 0.4
+    if use_lnk:
+        blocks.append(lnk)
+    allnames = names + (["LNK"] if use_lnk else [])
+    link = ["[ link ]", 'resname "%s"' % "|".join(allnames), "[ bonds ]", "BB +BB 1 0.350 1250"]
+    # a one-residue link that renames an atom: modifications that name the old atom name must not find it any more
+    rename = rng.random() < 0.4
+    if rename:
+        link += ["[ link ]", 'resname "%s"' % "|".join(allnames), "[ atoms ]", 'SC1 {"replace": {"atomname": "SX"}}',
+                 "[ bonds ]", 'BB SC1 1 0.333 777 {"version": 7}']
     mods = []
     mod_defs = {}
     for mname in ("N-ter", "C-ter", "XMOD"):
@@ -179,7 +202,7 @@ def run_mods(cid, rng, workdir, res):
     n = rng.randint(2, 7)
     start = rng.choice([1, 1, 3, 10])
     from ..gen import resgraph as RG
-    graph = {"nodes": [{"key": i, "resname": rng.choice(names), "resid": start + i} for i in range(n)],
+    graph = {"nodes": [{"key": i, "resname": rng.choice(allnames), "resid": start + i} for i in range(n)],
              "edges": [(i, i + 1, None) for i in range(n - 1)], "kind": "lin"}
     with open(os.path.join(workdir, "m.ff"), "w") as fh:
         fh.write(text)
@@ -192,7 +215,8 @@ def run_mods(cid, rng, workdir, res):
     for t in target_nodes:
         nd = graph["nodes"][t]
         mname = rng.choice(sorted(mod_defs))
-        modspec.append(("%s%d" % (nd["resname"], nd["resid"]), mname, nd))
+        typed = nd["resname"] if nd["resname"] != "LNK" or rng.random() < 0.5 else rng.choice(names)
+        modspec.append(("%s%d" % (typed, nd["resid"]), mname, nd))
     case["descr"]["mods"] = [(a, b) for a, b, _ in modspec]
     res["sample"] = case["descr"]
     res["sig"] = sig_of([text, graph["nodes"], case["descr"]["mods"]])
@@ -211,10 +235,16 @@ def run_mods(cid, rng, workdir, res):
     bump(res, "mods_cases")
     res["nontrivial"] = True
     # expectation: 'default' applies N-ter to the first and C-ter to the last residue; 'with' applies modspec
+    bnames = {b["name"]: [a["name"] for a in b["atoms"]] for b in blocks}
+
     def expect(mlist):
         rep = {}
         for nd, mname in mlist:
+            if nd["resname"] == "LNK":
+                continue                      # not a protein residue: left alone
             for aname, r in mod_defs[mname].items():
+                if rename and aname == "SC1" and "SC1" in bnames[nd["resname"]]:
+                    continue                  # that atom is called SX by now
                 rep.setdefault((nd["resid"], aname), {}).update(r)
         return rep
     first, last = graph["nodes"][0], graph["nodes"][-1]
@@ -233,7 +263,8 @@ def run_mods(cid, rng, workdir, res):
                 pos += 1
                 rep = exp[tag].get((nd["resid"], a["name"]), {})
                 want = {"atype": rep.get("atype", a["atype"]), "charge": rep.get("charge", a["charge"]),
-                        "mass": a["mass"], "name": a["name"], "resid": nd["resid"], "resname": nd["resname"]}
+                        "mass": a["mass"], "name": "SX" if (rename and a["name"] == "SC1") else a["name"],
+                        "resid": nd["resid"], "resname": nd["resname"]}
                 bump(res, "mod_atoms_checked")
                 if rep:
                     bump(res, "mod_atoms_modified")
